@@ -739,6 +739,8 @@ pub fn run_c01(ctx: &Ctx) -> i32 {
             }
         }
     });
+    // (e) sudo(Staking): refused calls in every state of a small staking exploration
+    let refused_staking_sudo = crate::staking::rejected_sudo_sweep(ctx, ctx.tier.pick(3, 4));
     let nstarts = all.len() + reach.len();
     finish(
         ctx,
@@ -746,9 +748,9 @@ pub fn run_c01(ctx: &Ctx) -> i32 {
         nstarts,
         &sampler,
         json!({"core_size_max_execute": core_hi, "core_size_max_other_entry_points": entries_hi, "entry_points": kinds, "rich_size_max": rich_hi,
-               "reachable_start_states": reach.len(), "multi_message_alphabet": n, "multi_sequences": nseq}),
+               "reachable_start_states": reach.len(), "multi_message_alphabet": n, "multi_sequences": nseq, "refused_staking_sudo_calls_checked_for_leftovers": refused_staking_sudo}),
         vec![],
-        vec!["custom user modules with their own side state are outside".into(), "sudo(Staking slash) atomicity is checked by the staking engine (C14/C16)".into()],
+        vec!["custom user modules with their own side state are outside".into()],
         json!({}),
     )
 }
